@@ -383,12 +383,19 @@ def _run_names(c):
     return [ids.look_name(n) for n in _build(c["reader"]).get_column_names()]
 
 
-def _append_arg(kind, part):
+def _append_arg(kind, part, pos=0):
     if kind == "DataFrame":
         return part
     if kind == "Dicts":
         recs = part.to_dict("records")
         return recs[0] if len(recs) == 1 else recs
+    if len(part) == 1 and (pos % 2 == 1 or len(part.columns) % 2 == 0):
+        # a record built on its own (np.rec.fromrecords): its structured dtype is the narrowest that holds THIS row (string
+        # fields as wide as this row's strings), so the dtypes of successive records differ; for tables with an even number of columns every record is built this way (the
+        # first record then has narrow string fields), otherwise only those at odd positions
+        import numpy as np
+        row = [v.item() if hasattr(v, "item") else v for v in part.iloc[0].tolist()]
+        return np.rec.fromrecords([tuple(row)], names=list(part.columns))[0]
     rec = part.to_records(index=False)
     return rec[0] if len(rec) == 1 else rec
 
@@ -414,7 +421,7 @@ def _run_writer(c):
     with w:
         pos = 0
         for s in c["sizes"]:
-            w.append_data(_append_arg(c["kind"], df.iloc[pos:pos + s]))
+            w.append_data(_append_arg(c["kind"], df.iloc[pos:pos + s], pos))
             pos += s
     out = w.get_associated_reader().read()
     fr = _frame_out(ids, out)
@@ -446,7 +453,7 @@ def _run_trace(c):
     with w:
         pos = 0
         for s in c["sizes"]:
-            w.append_data(_append_arg(c["kind"], df.iloc[pos:pos + s]))
+            w.append_data(_append_arg(c["kind"], df.iloc[pos:pos + s], pos))
             pos += s
             out.append(len(w.get_associated_reader().read()))
     out.append(len(w.get_associated_reader().read()))
@@ -800,7 +807,7 @@ def plain_table(names, n, off=0):
         elif ty == "f":
             cols.append([off + k + j * 0.5 + 0.25 for j in range(n)])
         elif ty == "s":
-            cols.append([f"{nm}_{off + j}" for j in range(n)])
+            cols.append([f"{nm}_{'x' * ((j * 3) % 5)}{off + j}" for j in range(n)])      # strings of varying width
         else:
             cols.append([(j + off) % 3 == 0 for j in range(n)])
     return {"names": list(names), "types": [types[k % 4] for k in range(len(names))], "cols": cols}
